@@ -104,6 +104,15 @@ func verifCtxOf(ctx context.Context) *verifCtx {
 	return vc
 }
 
+// verifRootCtx: the harness context a (possibly derived) context descends from.
+func verifRootCtx(ctx context.Context) *verifCtx {
+	vc := verifCtxOf(ctx)
+	for vc != nil && vc.parent != nil {
+		vc = vc.parent
+	}
+	return vc
+}
+
 func verifBackground() context.Context { return &verifCtx{tag: "background"} }
 
 func verifStubWithTimeout(parent context.Context, d time.Duration) (context.Context, context.CancelFunc) {
